@@ -145,6 +145,9 @@ type Node struct {
 	closed bool
 	dirs   []string
 
+	// kc is this node's cache of decoded public keys (process-wide state in a real node): installed by Enter
+	kc *keys.VerifKeyCache
+
 	hook          func(*config.Blockchain)
 	prevBal       *ledgerBalances
 	prevBalHeight uint32
@@ -255,7 +258,8 @@ func (n *Node) open() (err error) {
 	n.Exec = neotest.NewExecutor(n.tb, bc, validator, committee)
 	n.closed = false
 	// a freshly started process has decoded no public key yet
-	keys.VerifPurgeKeyCache()
+	n.kc = keys.VerifNewKeyCache()
+	n.Enter()
 	go bc.Run()
 	sim.Wait()
 	return nil
@@ -298,6 +302,7 @@ func (n *Node) Destroy() {
 
 // AddBlockBytes feeds a block to the node the way a peer would: decoded from bytes.
 func (n *Node) AddBlockBytes(raw []byte) error {
+	n.Enter()
 	b := block.New(n.Proto.StateRootInHeader)
 	r := io.NewBinReaderFromBuf(raw)
 	b.DecodeBinary(r)
@@ -316,4 +321,13 @@ func (n *Node) LogCounts() map[string]int {
 		r[k] = v
 	}
 	return r
+}
+
+// Enter makes the process-wide state of the simulated process of node n current: all simulated nodes live in one
+// process, the driver calls into one node at a time and installs that node's own cache of decoded public keys first.
+func (n *Node) Enter() {
+	if n.kc == nil {
+		n.kc = keys.VerifNewKeyCache()
+	}
+	keys.VerifSetKeyCache(n.kc)
 }
